@@ -6,7 +6,7 @@
     * `chooseMethod`     = `flox.core._choose_method`
     * `chooseEngine`     = `flox.core._choose_engine`
     * `validate`         = the guards of `groupby_reduce` (core.py 2606-2893) and of `dask_groupby_agg`
-                           (core.py 1809-1818) in the order the code executes them; an `assert` that can fail
+                           (core.py 1809-1818, and the two refusals of its blockwise branch) in the order the code executes them; an `assert` that can fail
                            would be modelled as `.err .assertion` (none is left in the chain)
     * `blockwiseRefused` = the check `len(pd.unique(groups_)) != groups_.size` of method="blockwise" (core.py 2945-2953)
 
@@ -224,8 +224,11 @@ def core (c : CoreCell) : Res (Option Method × Option Bool) :=
   let preferred := if callsCohorts then c.preferred else .mapReduce
   let cohortsEmpty := if callsCohorts then c.cohortsEmpty else true
   (chooseMethod c.method preferred k.chunkNone c.ax.naxEqNdim k.isArg).bind fun m0 =>
-  let m1 := if c.method = none && r1 = some true && (m0 = .blockwise || m0 = .cohorts) && !k.chunkNone
-            then .mapReduce else m0
+  -- reindex=True was requested: only compatible with map-reduce ...
+  let fallback := c.method = none && r1 = some true && (m0 = .blockwise || m0 = .cohorts) && !k.chunkNone
+  let m1 := if fallback then .mapReduce else m0
+  -- ... unless there is no chunk function (only blockwise is possible): every block then reports its own groups
+  let r1 := if !fallback && c.method = none && r1 = some true && m0 = .blockwise && !c.byDask then some false else r1
   -- none of the requested labels occurs in any block: nothing to split into cohorts / to run blockwise
   let m := if cohortsEmpty && (m1 = .cohorts || (c.method = none && m1 = .blockwise)) then .mapReduce else m1
   if k.chunkNone && m ≠ .blockwise then .err .notImplemented else
@@ -236,6 +239,10 @@ def core (c : CoreCell) : Res (Option Method × Option Bool) :=
   -- dask_groupby_agg
   if !expectedKnown && r2 = some true then .err .valueError else
   if m = .cohorts && r2 = some true then .err .valueError else
+  -- blockwise branch: reindexing every block to expected_groups needs a single block along the reduced axes;
+  -- finding every block's own groups needs the labels in memory
+  if m = .blockwise && r2 = some true && !c.singleBlock then .err .valueError else
+  if m = .blockwise && r2 ≠ some true && c.byDask then .err .valueError else
   .ok (some m, r2)
 
 end Flox.Decisions
